@@ -1354,7 +1354,6 @@ func checkPolicyAnswersFromValues(w *World, r *Report) {
 	r.floor("bool query methods of the package's policy implementations", n, 2)
 }
 
-
 // summariseNegGuards finds bool helpers B(… name string …) ("is this name blocked?") whose
 // every result that can be false is produced where the context is not sandboxed or the policy
 // allowed the name: a false constant returned in that state, or the negation of the policy query
